@@ -93,3 +93,34 @@ impl StagesBuilder {
         }
     }
 }
+// ======== C20: what the plan printer must emit for an id table
+pub open spec fn tok0(s: &str) -> Tok { Tok { fmt: s@, arg: None } }
+pub open spec fn label_of(id: SystemId, inv: Map<SystemId, Seq<char>>) -> Seq<char> {
+    spec_sanitise(if inv.contains_key(id) { inv[id] } else { spec_placeholder(id.0) })
+}
+pub open spec fn sys_tok(id: SystemId, inv: Map<SystemId, Seq<char>>) -> Tok { Tok { fmt: "\t\t\t{},"@, arg: Some(label_of(id, inv)) } }
+pub open spec fn group_toks(g: Seq<SystemId>, inv: Map<SystemId, Seq<char>>) -> Seq<Tok> decreases g.len() {
+    if g.len() == 0 { Seq::empty() } else { group_toks(g.drop_last(), inv).push(sys_tok(g.last(), inv)) }
+}
+pub open spec fn groups_toks(gs: Seq<ArrayVec<SystemId, MAX_SYSTEMS_PER_GROUP>>, inv: Map<SystemId, Seq<char>>) -> Seq<Tok> decreases gs.len() {
+    if gs.len() == 0 { Seq::empty() } else { groups_toks(gs.drop_last(), inv) + (seq![tok0("\t\tseq![")] + group_toks(gs.last()@, inv)).push(tok0("\t\t],")) }
+}
+pub open spec fn stages_toks(ss: IdsT, inv: Map<SystemId, Seq<char>>) -> Seq<Tok> decreases ss.len() {
+    if ss.len() == 0 { Seq::empty() } else { stages_toks(ss.drop_last(), inv) + (seq![tok0("\tpar![")] + groups_toks(ss.last()@, inv)).push(tok0("\t],")) }
+}
+// seq![ par![ seq![ name, .. ], .. ], .. ]  : every id exactly once, at its table position
+pub open spec fn render(ids: IdsT, inv: Map<SystemId, Seq<char>>) -> Seq<Tok> {
+    (seq![tok0("seq![")] + stages_toks(ids, inv)).push(tok0("]"))
+}
+pub proof fn lemma_group_toks_take(g: Seq<SystemId>, inv: Map<SystemId, Seq<char>>, k: int)
+    requires 0 <= k < g.len()
+    ensures group_toks(g.take(k + 1), inv) == group_toks(g.take(k), inv).push(sys_tok(g[k], inv))
+{ assert(g.take(k + 1).drop_last() =~= g.take(k)); }
+pub proof fn lemma_groups_toks_take(gs: Seq<ArrayVec<SystemId, MAX_SYSTEMS_PER_GROUP>>, inv: Map<SystemId, Seq<char>>, k: int)
+    requires 0 <= k < gs.len()
+    ensures groups_toks(gs.take(k + 1), inv) == groups_toks(gs.take(k), inv) + (seq![tok0("\t\tseq![")] + group_toks(gs[k]@, inv)).push(tok0("\t\t],"))
+{ assert(gs.take(k + 1).drop_last() =~= gs.take(k)); }
+pub proof fn lemma_stages_toks_take(ss: IdsT, inv: Map<SystemId, Seq<char>>, k: int)
+    requires 0 <= k < ss.len()
+    ensures stages_toks(ss.take(k + 1), inv) == stages_toks(ss.take(k), inv) + (seq![tok0("\tpar![")] + groups_toks(ss[k]@, inv)).push(tok0("\t],"))
+{ assert(ss.take(k + 1).drop_last() =~= ss.take(k)); }
